@@ -31,33 +31,35 @@ func init() {
 }
 
 func runC13(c *core.Ctx) {
-	ruleBuildersStoreAll(c, "C13-R6")
-	ruleRunCompression(c, "C13-R7")
-	ruleCMapStreamKeys(c)
-	ruleCMapBounded(c)
-	ruleRangeIndexStep(c)
-	ruleIncrementBase(c)
-	ruleRectangularRanges(c)
-	ruleRangePositionIndex(c)
-	ruleAliasHygiene(c, [3]string{"C13-R11", "C13-R12", "C13-R13"}, cmapPkg)
-	ruleMethodsPure(c, "C13-R14", cmapPkg, 5, func(fn *core.Func, recv types.Type) bool {
-		if !(core.IsNamed(recv, cmapPkg, "File") || core.IsNamed(recv, cmapPkg, "ToUnicodeFile")) {
-			return false
-		}
-		n := fn.Obj.Name()
-		return strings.HasPrefix(n, "Lookup") || n == "All" || n == "CodeForText" || n == "GetMapping" || n == "Equal" || n == "IsPredefined"
+	c.Guard(func() { ruleBuildersStoreAll(c, "C13-R6") })
+	c.Guard(func() { ruleRunCompression(c, "C13-R7") })
+	c.Guard(func() { ruleCMapStreamKeys(c) })
+	c.Guard(func() { ruleCMapBounded(c) })
+	c.Guard(func() { ruleRangeIndexStep(c) })
+	c.Guard(func() { ruleIncrementBase(c) })
+	c.Guard(func() { ruleRectangularRanges(c) })
+	c.Guard(func() { ruleRangePositionIndex(c) })
+	c.Guard(func() { ruleAliasHygiene(c, [3]string{"C13-R11", "C13-R12", "C13-R13"}, cmapPkg) })
+	c.Guard(func() {
+		ruleMethodsPure(c, "C13-R14", cmapPkg, 5, func(fn *core.Func, recv types.Type) bool {
+			if !(core.IsNamed(recv, cmapPkg, "File") || core.IsNamed(recv, cmapPkg, "ToUnicodeFile")) {
+				return false
+			}
+			n := fn.Obj.Name()
+			return strings.HasPrefix(n, "Lookup") || n == "All" || n == "CodeForText" || n == "GetMapping" || n == "Equal" || n == "IsPredefined"
+		})
 	})
 }
 
 func runC14(c *core.Ctx) {
-	ruleSimpleEncode(c)
-	ruleCIDEncodeFresh(c)
-	ruleRunCompression(c, "C14-R7")
-	ruleSimpleWidthsWindow(c)
-	ruleDifferencesArray(c)
-	ruleSimpleCodesSiblings(c)
-	ruleFontSelectionIdentity(c)
-	ruleWidthsTrimming(c)
+	c.Guard(func() { ruleSimpleEncode(c) })
+	c.Guard(func() { ruleCIDEncodeFresh(c) })
+	c.Guard(func() { ruleRunCompression(c, "C14-R7") })
+	c.Guard(func() { ruleSimpleWidthsWindow(c) })
+	c.Guard(func() { ruleDifferencesArray(c) })
+	c.Guard(func() { ruleSimpleCodesSiblings(c) })
+	c.Guard(func() { ruleFontSelectionIdentity(c) })
+	c.Guard(func() { ruleWidthsTrimming(c) })
 }
 
 const cmapPkg = "pdf/font/cmap"
@@ -636,7 +638,7 @@ func checkRunSteps(c *core.Ctx, o *core.Ob, fn *core.Func) {
 				o.Unrec("%s: the value %s of what is emitted is not the value of one entry (%s)", c.Prog.Pos(e.lit.Pos()), got, vctx)
 				return
 			}
-			if m[1] != start.Name() {
+			if m[1] != core.VarName(start) {
 				o.FailAt(fn.Site(e.lit, ""), "what is emitted for a run carries the value at position %s; it must carry the value of the run's first code (position %s)", m[1], start.Name())
 			}
 		}
@@ -968,14 +970,14 @@ func ruleRangeIndexStep(c *core.Ctx) {
 		}
 		first, last := params[0].Names[0].Name, params[0].Names[1].Name
 		doms := map[string][]int64{
-			acc.Name(): {0, 1, 2, 7, 300},
-			bName:      {0, 1, 0x20, 0x21, 0x7e, 0xfe, 0xff},
-			first:      {0, 1, 0x20, 0x21},
-			last:       {0x21, 0x7e, 0xfe, 0xff},
+			core.VarName(acc): {0, 1, 2, 7, 300},
+			bName:             {0, 1, 0x20, 0x21, 0x7e, 0xfe, 0xff},
+			first:             {0, 1, 0x20, 0x21},
+			last:              {0x21, 0x7e, 0xfe, 0xff},
 		}
 		cnt, bad := 0, 0
 		decided, reason := c.Prog.Tabulate(fn, rhs, subst, doms, func(env map[string]int64, v int64, _ bool) {
-			a, _ := core.EnvGet(env, acc.Name())
+			a, _ := core.EnvGet(env, core.VarName(acc))
 			b, _ := core.EnvGet(env, bName)
 			f, _ := core.EnvGet(env, first)
 			l, _ := core.EnvGet(env, last)
@@ -1266,7 +1268,7 @@ func ruleDifferencesArray(c *core.Ctx) {
 			for _, d := range core.AssignsTo(info, fn.Decl, state) {
 				as, ok := d.(*ast.AssignStmt)
 				if !ok || len(as.Lhs) != 1 || len(as.Rhs) != 1 {
-					core.Undecided("assignment to %s not understood", state.Name())
+					core.Undecided("assignment to %s not understood", core.VarName(state))
 				}
 				if as.Pos() >= rs.Body.Pos() && as.End() <= rs.Body.End() {
 					upd = as.Rhs[0]
@@ -1278,11 +1280,11 @@ func ruleDifferencesArray(c *core.Ctx) {
 				}
 			}
 			if init == nil || upd == nil {
-				core.Undecided("initial value or update of %s not found", state.Name())
+				core.Undecided("initial value or update of %s not found", core.VarName(state))
 			}
 			s0, ok := core.IntConst(info, init)
 			if !ok {
-				core.Undecided("initial value of %s is not a constant", state.Name())
+				core.Undecided("initial value of %s is not a constant", core.VarName(state))
 			}
 			var codes []int64
 			for i := int64(0); i < 256; i++ {
@@ -1290,12 +1292,12 @@ func ruleDifferencesArray(c *core.Ctx) {
 			}
 			// (a) first entry
 			cnt := 0
-			dec, why := c.Prog.Tabulate(fn, guard.Cond.Expr, nil, map[string][]int64{code.Name(): codes, state.Name(): {s0}}, func(env map[string]int64, _ int64, b bool) {
+			dec, why := c.Prog.Tabulate(fn, guard.Cond.Expr, nil, map[string][]int64{core.VarName(code): codes, core.VarName(state): {s0}}, func(env map[string]int64, _ int64, b bool) {
 				cnt++
 				if !b {
-					cv, _ := core.EnvGet(env, code.Name())
+					cv, _ := core.EnvGet(env, core.VarName(code))
 					if cnt >= 0 {
-						o.Fail("%s: when the first entry of the array has code %d, no code is written before the name (%s with %s = %d is false)", c.Prog.Pos(guard.Cond.Expr.Pos()), cv, c.Prog.Src(guard.Cond.Expr), state.Name(), s0)
+						o.Fail("%s: when the first entry of the array has code %d, no code is written before the name (%s with %s = %d is false)", c.Prog.Pos(guard.Cond.Expr.Pos()), cv, c.Prog.Src(guard.Cond.Expr), core.VarName(state), s0)
 						cnt = -1000
 					}
 				}
@@ -1307,12 +1309,12 @@ func ruleDifferencesArray(c *core.Ctx) {
 			bad := 0
 			for _, prev := range codes {
 				var s1 int64
-				dec, why := c.Prog.Tabulate(fn, upd, nil, map[string][]int64{code.Name(): {prev}, state.Name(): {s0}}, func(_ map[string]int64, v int64, _ bool) { s1 = v })
+				dec, why := c.Prog.Tabulate(fn, upd, nil, map[string][]int64{core.VarName(code): {prev}, core.VarName(state): {s0}}, func(_ map[string]int64, v int64, _ bool) { s1 = v })
 				if !dec {
 					core.Undecided("state update not tabulated: %s", why)
 				}
-				dec, why = c.Prog.Tabulate(fn, guard.Cond.Expr, nil, map[string][]int64{code.Name(): codes, state.Name(): {s1}}, func(env map[string]int64, _ int64, b bool) {
-					cv, _ := core.EnvGet(env, code.Name())
+				dec, why = c.Prog.Tabulate(fn, guard.Cond.Expr, nil, map[string][]int64{core.VarName(code): codes, core.VarName(state): {s1}}, func(env map[string]int64, _ int64, b bool) {
+					cv, _ := core.EnvGet(env, core.VarName(code))
 					if cv <= prev {
 						return
 					}
